@@ -75,8 +75,10 @@ type limInst struct {
 	top   core.Limit
 	inner core.Limit
 	reg   *RecRegistry
-	n     int   // samples applied
-	clock int64 // windowed wrapper: start time of the next sample
+	// counting is the delegate handed to the windowed wrapper (nil otherwise)
+	counting *countingLimit
+	n        int   // samples applied
+	clock    int64 // windowed wrapper: start time of the next sample
 	// ghost state used by individual properties
 	aux any
 }
@@ -118,13 +120,16 @@ func (c limCfg) build(reg *RecRegistry) *limInst {
 		panic("algo " + c.algo)
 	}
 	top := in
+	var counting *countingLimit
 	switch c.wrapper {
 	case "windowed":
-		w, err := limit.NewWindowedLimit("w", 1e8, 1e8, 10, 1, in, r)
+		cl := &countingLimit{Limit: in}
+		w, err := limit.NewWindowedLimit("w", 1e8, 1e8, 10, 1, cl, r)
 		if err != nil {
 			panic(err)
 		}
 		top = w
+		counting = cl
 	case "traced":
 		if c.debug {
 			top = limit.NewTracedLimit(in, debugLogger{})
@@ -143,8 +148,22 @@ func (c limCfg) build(reg *RecRegistry) *limInst {
 			c.min = int(v)
 		}
 	}
-	return &limInst{cfg: c, top: top, inner: in, reg: reg}
+	return &limInst{cfg: c, top: top, inner: in, reg: reg, counting: counting}
 }
+
+// countingLimit forwards to a real algorithm and counts the samples it is given (a harness double:
+// lets a check see when the windowed wrapper closes a window).
+type countingLimit struct {
+	core.Limit
+	Calls int `fp:"-"`
+}
+
+func (c *countingLimit) OnSample(start, rtt int64, inFlight int, drop bool) {
+	c.Calls++
+	c.Limit.OnSample(start, rtt, inFlight, drop)
+}
+
+func (*countingLimit) FingerprintSkip() {}
 
 // floor/ceiling of the reported estimate per the property statement.
 func (c limCfg) floor() int {
@@ -406,7 +425,7 @@ func limGrid(level int) []limCfg {
 		{algo: "vegas", initial: 5, max: 8, smoothing: 0.5, probe: 4},
 		{algo: "gradient", initial: 4, min: 1, max: 10, smoothing: 1.0, queue: "fixed2", tol: 2.0, probe: 3},
 		{algo: "gradient", initial: 6, min: 2, max: 10, smoothing: 0.2, queue: "sqrt4", tol: 1.0, probe: -1},
-		{algo: "gradient", initial: 2, min: 1, max: 10, smoothing: 1.0, queue: "fixed4", tol: 2.0, probe: 2}, // initial estimate below the queue allowance
+		{algo: "gradient", initial: 2, min: 1, max: 10, smoothing: 1.0, queue: "fixed4", tol: 2.0, probe: 2},   // initial estimate below the queue allowance
 		{algo: "gradient", initial: 12, min: 10, max: 20, smoothing: 1.0, queue: "fixed2", tol: 1.0, probe: 4}, // minimum well above the queue allowance: after a probe the estimate climbs back from 2
 		{algo: "gradient2", initial: 4, min: 1, max: 10, smoothing: 1.0, queue: "fixed2", longWin: 3},
 		{algo: "gradient2", initial: 6, min: 2, max: 10, smoothing: 0.2, queue: "sqrt4", longWin: 10},
